@@ -105,3 +105,6 @@ ITEMS = [
                 FAIL]),
 ]
 CANARIES = ['remove_template', 'unlink']
+# mechanisms of C08 that no unit covers (listed as such in DESIGN / MANIFEST): a change to them cannot be decided by this check
+UNCOVERED = [('cedar-policy-core/src/ast/policy_set.rs', 'impl PolicySet > fn merge_policyset'), ('cedar-policy-core/src/ast/policy_set.rs', 'impl PolicySet > fn update_renaming'),
+             ('cedar-policy-core/src/ast/policy_set.rs', 'impl PolicySet > fn get_fresh_id')]
